@@ -11,6 +11,7 @@ Inductive needed (g : list tnode) (roots : list nat) : nat -> Prop :=
 | N_dep t d u : needed g roots t -> In d (tdeps (node g t)) -> In u (phase g d) -> needed g roots u.
 
 Section Needed.
+Variable clo : bool.
 Variable eda : bool.
 Variable g : list tnode.
 Variable P : nat -> Prop.
@@ -135,10 +136,10 @@ Definition nev_ok (ev : evaluator) : Prop :=
   nd_ok (est ev) /\ (forall t, In t (edonec ev) -> P t) /\ (forall p, In p (ewait ev) -> P (fst p)).
 
 Lemma nd_dispatch ev w ev' w' runs :
-  dispatch ev w = (ev', w', runs) -> nev_ok ev -> nev_ok ev' /\ forall r, In r runs -> P r.
+  dispatch clo ev w = (ev', w', runs) -> nev_ok ev -> nev_ok ev' /\ forall r, In r runs -> P r.
 Proof.
   intros E [[A [B C]] [D W]].
-  destruct (dispatch_spec _ _ _ _ _ E) as [_ [Rin [Es [_ [_ [Ed [_ Ew]]]]]]].
+  destruct (dispatch_spec _ _ _ _ _ _ E) as [_ [Rin [Es [_ [_ [Ed [_ Ew]]]]]]].
   destruct (runnable_fields (est ev)) as [Ft [_ [_ [_ [Fd [_ Fp]]]]]].
   split; [|intros r Hr; apply A, Rin, Hr].
   split; [|split].
@@ -151,7 +152,7 @@ Qed.
 
 Lemma nd_main_top roots : (forall r, In r roots -> P r) ->
   forall k ev w acc ev' w' runs,
-  main_top eda g k ev w acc = (ev', w', runs) -> eroots ev = roots -> nev_ok ev ->
+  main_top clo eda g k ev w acc = (ev', w', runs) -> eroots ev = roots -> nev_ok ev ->
   (forall r, In r acc -> P r) ->
   nev_ok ev' /\ (forall r, In r runs -> P r) /\ eroots ev' = roots.
 Proof.
@@ -167,24 +168,24 @@ Proof.
     + destruct (is_nil (stodo s1)).
       * inversion E; subst. split; [|split; [exact Hacc | reflexivity]].
         destruct N as [_ [D W]]. split; [exact N1 | split; assumption].
-      * destruct (dispatch (set_est ev s1) w) as [[ev1 w1] runs1] eqn:Dp.
+      * destruct (dispatch clo (set_est ev s1) w) as [[ev1 w1] runs1] eqn:Dp.
         assert (N2 : nev_ok (set_est ev s1)) by (destruct N as [_ [D W]]; split; [exact N1 | split; assumption]).
         destruct (nd_dispatch _ _ _ _ _ Dp N2) as [N3 R3].
-        destruct (dispatch_spec _ _ _ _ _ Dp) as [_ [_ [_ [Er1 _]]]]. simpl in Er1.
+        destruct (dispatch_spec _ _ _ _ _ _ Dp) as [_ [_ [_ [Er1 _]]]]. simpl in Er1.
         apply (IH ev1 w1 (acc ++ runs1) ev' w' runs E); [congruence | exact N3|].
         intros r Hr. apply in_app_or in Hr. destruct Hr; auto.
 Qed.
 
 Lemma nd_main_cont roots ev w ev' w' runs : (forall r, In r roots -> P r) ->
-  main_cont eda g ev w = (ev', w', runs) -> eroots ev = roots -> nev_ok ev ->
+  main_cont clo eda g ev w = (ev', w', runs) -> eroots ev = roots -> nev_ok ev ->
   nev_ok ev' /\ (forall r, In r runs -> P r) /\ eroots ev' = roots.
 Proof.
   intros Hroots E Er N. unfold main_cont in E.
   destruct (negb (sdone (est ev)) && is_nil (stodo (est ev))).
   - inversion E; subst. split; [exact N|]. split; [intros r [] | reflexivity].
-  - destruct (dispatch ev w) as [[ev1 w1] runs1] eqn:Dp.
+  - destruct (dispatch clo ev w) as [[ev1 w1] runs1] eqn:Dp.
     destruct (nd_dispatch _ _ _ _ _ Dp N) as [N1 R1].
-    destruct (dispatch_spec _ _ _ _ _ Dp) as [_ [_ [_ [Er1 _]]]].
+    destruct (dispatch_spec _ _ _ _ _ _ Dp) as [_ [_ [_ [Er1 _]]]].
     apply (nd_main_top roots Hroots _ _ _ _ _ _ _ E); [congruence | exact N1 | exact R1].
 Qed.
 
@@ -205,6 +206,7 @@ Lemma needed_root g roots : wf g -> forall r, In r roots -> needed g roots r.
 Proof. intros [H1 _] r Hr. apply (N_root g roots r r Hr). apply H1. Qed.
 
 Section NeededSys.
+Variable clo : bool.
 Variable eda : bool.
 Variable g : list tnode.
 Hypothesis Hwf : wf g.
@@ -222,8 +224,8 @@ Qed.
 
 Lemma nstep sy l :
   nsys_ok sy ->
-  nsys_ok (fst (step eda g sy l)) /\
-  forall e r, In (e, r) (snd (step eda g sy l)) -> needed g (eroots (get_ev sy e)) r.
+  nsys_ok (fst (step_v clo eda g sy l)) /\
+  forall e r, In (e, r) (snd (step_v clo eda g sy l)) -> needed g (eroots (get_ev sy e)) r.
 Proof.
   intro N.
   assert (Keep : forall e ev' w', e < length (sevs sy) ->
@@ -237,11 +239,11 @@ Proof.
   - split; [|intros e r []]. intros e He. apply (N e He).
   - destruct (Nat.ltb e (length (sevs sy))) eqn:L; [|split; [exact N | intros e' r []]].
     apply Nat.ltb_lt in L.
-    destruct (step_start eda g (get_ev sy e) (sw sy)) as [[ev' w'] rs] eqn:E. simpl.
+    destruct (step_start clo eda g (get_ev sy e) (sw sy)) as [[ev' w'] rs] eqn:E. simpl.
     unfold step_start in E. destruct (estarted (get_ev sy e)).
     + inversion E; subst. split; [|intros e' r []]. apply (Keep e _ _ L eq_refl (N e L)).
     + set (roots := eroots (get_ev sy e)) in *.
-      destruct (nd_main_top eda g (needed g roots) (needed_dep g roots) (needed_phase g roots Hwf) roots
+      destruct (nd_main_top clo eda g (needed g roots) (needed_dep g roots) (needed_phase g roots Hwf) roots
                   (needed_root g roots Hwf) _ _ _ _ _ _ _ E eq_refl) as [N' [R' Er']].
       { unfold nev_ok, nd_ok. simpl. repeat split; intros; contradiction. }
       { intros r []. }
@@ -249,7 +251,7 @@ Proof.
       intros e' r Hr. apply in_map_iff in Hr. destruct Hr as [x [Hx Hin]]. inversion Hx; subst. apply R', Hin.
   - destruct (Nat.ltb e (length (sevs sy))) eqn:L; [|split; [exact N | intros e' r []]].
     apply Nat.ltb_lt in L.
-    destruct (step_wait (get_ev sy e) (sw sy) t) as [ev' w'] eqn:E. simpl. split; [|intros e' r []].
+    destruct (step_wait clo (get_ev sy e) (sw sy) t) as [ev' w'] eqn:E. simpl. split; [|intros e' r []].
     unfold step_wait in E. destruct (N e L) as [Ns [Nd Nw]].
     destruct (eres (get_ev sy e)); [inversion E; subst; apply (Keep e _ _ L eq_refl (N e L))|].
     destruct (find_waiter t (ewait (get_ev sy e))) as [r|] eqn:F; [|inversion E; subst; apply (Keep e _ _ L eq_refl (N e L))].
@@ -263,13 +265,13 @@ Proof.
     + intros p Hp. apply filter_In in Hp. apply Nw, Hp.
   - destruct (Nat.ltb e (length (sevs sy))) eqn:L; [|split; [exact N | intros e' r []]].
     apply Nat.ltb_lt in L.
-    destruct (step_main eda g (get_ev sy e) (sw sy)) as [[ev' w'] rs] eqn:E. simpl.
+    destruct (step_main clo eda g (get_ev sy e) (sw sy)) as [[ev' w'] rs] eqn:E. simpl.
     unfold step_main in E. destruct (N e L) as [Ns [Nd Nw]].
     destruct (eres (get_ev sy e)); [inversion E; subst; split; [apply (Keep e _ _ L eq_refl (N e L)) | intros e' r []]|].
     destruct (edonec (get_ev sy e)) as [|t rest] eqn:Hd;
       [inversion E; subst; split; [apply (Keep e _ _ L eq_refl (N e L)) | intros e' r []]|].
     set (roots := eroots (get_ev sy e)) in *.
-    destruct (nd_main_cont eda g (needed g roots) (needed_dep g roots) (needed_phase g roots Hwf) roots
+    destruct (nd_main_cont clo eda g (needed g roots) (needed_dep g roots) (needed_phase g roots Hwf) roots
                 _ _ _ _ _ (needed_root g roots Hwf) E eq_refl) as [N' [R' Er']].
     { split; [|split]; simpl.
       - apply nd_ret; [apply needed_dep | apply needed_phase, Hwf | exact Ns | apply Nd; left; reflexivity].
@@ -280,11 +282,16 @@ Proof.
 Qed.
 
 (* Every task handed to the executor by evaluation e is needed by e's roots. *)
-Theorem needed_only st0 rootss sy l :
-  reachable eda g (init_sys st0 rootss) sy ->
-  forall e r, In (e, r) (snd (step eda g sy l)) -> needed g (eroots (get_ev sy e)) r.
+Theorem needed_only_v st0 rootss sy l :
+  reachable_v clo eda g (init_sys st0 rootss) sy ->
+  forall e r, In (e, r) (snd (step_v clo eda g sy l)) -> needed g (eroots (get_ev sy e)) r.
 Proof.
   intros R. apply nstep. induction R; [apply init_nsys_ok|]. apply nstep. exact IHR.
 Qed.
 
 End NeededSys.
+
+Theorem needed_only eda g (Hwf : wf g) st0 rootss sy l :
+  reachable eda g (init_sys st0 rootss) sy ->
+  forall e r, In (e, r) (snd (step eda g sy l)) -> needed g (eroots (get_ev sy e)) r.
+Proof. exact (needed_only_v (ver eda) eda g Hwf st0 rootss sy l). Qed.
